@@ -178,6 +178,20 @@ func execStep(w *world.World, s Step) bool {
 		w.SMPAnswer(p, secretBytes(s.S), s.S)
 	case "SMPAbort":
 		w.SMPAbort(p)
+	case "DrainUntilEnc":
+		// deliveries in turn until p is encrypted (whatever else is in flight stays in flight)
+		for k := 0; k < 40 && !p.Conv.IsEncrypted(); k++ {
+			a, b := w.P["A"], w.P["B"]
+			if len(a.Queue) == 0 && len(b.Queue) == 0 {
+				break
+			}
+			if len(b.Queue) > 0 {
+				w.Deliver(b)
+			}
+			if !p.Conv.IsEncrypted() && len(a.Queue) > 0 {
+				w.Deliver(a)
+			}
+		}
 	case "FragSize":
 		w.SetFragSize(p, s.Z)
 	case "SetKeys":
@@ -1020,6 +1034,42 @@ func genSchedule(rng *rand.Rand, family string, depth int) *Schedule {
 			}
 			add(Step{A: "Deliver", P: "A"})
 		}
+		return sc
+	case "dupend":
+		// a start in which messages travel twice (both sides start at once; or two texts under required
+		// encryption), one side ends the session the moment it has become encrypted, while the duplicates
+		// are still on their way; whoever then starts again (no minute has passed) must get a session
+		sc.Fam = "ake"
+		sc.Frag = map[string]int{}
+		v := genIdx
+		sc.Pol["A"], sc.Pol["B"] = 3, 3
+		if v%3 == 1 {
+			sc.Pol["A"], sc.Pol["B"] = 1, 1
+		}
+		if (v/3)%2 == 0 {
+			add(Step{A: "Query", P: "A"})
+			add(Step{A: "Query", P: "B"})
+		} else {
+			sc.Pol["A"] |= 4
+			sc.Pol["B"] |= 4
+			add(Step{A: "Send", P: "A", T: 1})
+			add(Step{A: "Send", P: "B", T: 2})
+			if v%2 == 0 {
+				add(Step{A: "Send", P: "A", T: 3})
+			}
+		}
+		ender := ps[(v/6)%2]
+		add(Step{A: "DrainUntilEnc", P: ender})
+		add(Step{A: "End", P: ender})
+		for k := 0; k < 10; k++ {
+			add(Step{A: "Deliver", P: "A"})
+			add(Step{A: "Deliver", P: "B"})
+		}
+		starter := ps[(v/12)%2]
+		add(Step{A: "End", P: starter}) // the side that was told (or not yet) closes the ended session as a user would
+		add(Step{A: "Deliver", P: "A"})
+		add(Step{A: "Deliver", P: "B"})
+		add(Step{A: "Query", P: starter})
 		return sc
 	case "akestart":
 		sc.Fam = "ake"
